@@ -59,7 +59,7 @@ def corrupt(e):
     out.append((c, ["increased", "factor", "range"]))
     if float(undy(e["i"])) > 0:
         c = copy.deepcopy(e)
-        c["ap"] = [True, dy(0.0), dy(1e-9)]          # ray now falls outside a tiny aperture
+        c["ap"] = [True, dy(1e9), dy(2e9)]           # ray now falls inside the obscuration of a huge annulus
         out.append((c, ["aperture_not_applied"]))
         c = copy.deepcopy(e)
         c["tau"] = dy(float(undy(e["tau"])) * 0.5 + 0.01)
